@@ -104,7 +104,7 @@ P("C11",
   technique="stateful PBT (rapid state machine of 1..3 SignOCI calls) over a retaining scripted repository, an in-memory store and an on-disk OCI layout; tree-diff and deep-snapshot oracles",
   level_text="Exploration over call sequences: signer input, pushed subject/annotations, and the complete before/after state of repository, descriptors and option maps are compared with pristine copies.",
   level_note="Trusts oras-go's OCI layout implementation and the harness's tree snapshot.",
-  health={"repo=scripted": 20, "repo=oci-layout": 20, "calls>=2": 20, "meta=colliding": 5, "meta=reserved": 5, "ref=digest-mismatch": 5, "signer-annotations=clashing": 100, "plugin-backed-signer=envelope": 100})
+  health={"repo=scripted": 20, "repo=oci-layout": 20, "calls>=2": 20, "meta=colliding": 5, "meta=reserved": 5, "ref=digest-mismatch": 5, "signer-annotations=clashing": 100, "plugin-backed-signer=envelope": 100, "plugin-backed-signer=envelope-drops-annotations": 50})
 
 P("C12",
   technique="robustness PBT + fuzzing: structured mutations of valid inputs and the full verifier-configuration cross product run under recover with allocation accounting; hostile on-disk OCI layouts and an in-process hostile HTTP registry behind the real oras client; four native fuzz targets in thorough",
@@ -124,7 +124,7 @@ P("C12",
           "mode=layout": 50, "mode=remote": 50, "phase=reopened": 10, "manifest-fetched": 20, "listed>0": 20,
           "file=oci-policy": 50, "file=blob-policy": 50, "file=config": 50, "file=signingkeys": 50, "file=crl-cache": 50, "file=keypair": 20, "file=truststore": 20,
           "parsed:oci-policy": 10, "parsed:blob-policy": 10, "parsed:signingkeys": 10, "parsed:config": 10, "parsed:crl-cache": 5, "policy-accepted": 10,
-          "plugin=cli": 10, "plugin=cli-signer": 5, "plugin=cli-verifier": 5, "plugin=inproc": 100, "fuzz-seed": 50, "nil-args": 20, "revocation-wiring-partial+tsa-store": 100},
+          "plugin=cli": 10, "plugin=cli-signer": 5, "plugin=cli-verifier": 5, "plugin=inproc": 100, "fuzz-seed": 50, "nil-args": 20, "revocation-wiring-partial+tsa-store": 100, "invalid-policy-document-next-to-a-valid-one": 50, "plugin-floods-output": 2},
   fuzz=[{"name": "FuzzC12_Envelope", "seconds": 90}, {"name": "FuzzC12_PolicyJSON", "seconds": 60}, {"name": "FuzzC12_ConfigJSON", "seconds": 60}, {"name": "FuzzC12_CacheEntry", "seconds": 60}])
 
 P("C13",
@@ -147,7 +147,7 @@ P("C14",
   level_text="Fault enumeration: every step boundary of a store (temp created / written / closed / renamed) is used as a pre-emption point and as a crash point; histories are checked for linearizability as a per-URL register and every read must be a miss or a byte-exact stored bundle.",
   level_note="Crash = SIGKILL of the writing process (no power loss / fsync semantics); scheduling inside a single write(2) is only sampled by the free-running explorer. Uses the verif-tag hooks in internal/file.WriteFile; the free-running and strace explorers do not depend on them.",
   helpers=["crlworker"],
-  health={"explorer=schedules": 50, "explorer=crash-hook": 20, "explorer=free-running": 1, "explorer=fault-syscall": 20, "store-failed-or-unreported": 5, "explorer=shared-value-many-urls": 1},
+  health={"explorer=schedules": 50, "explorer=crash-hook": 20, "explorer=free-running": 1, "explorer=fault-syscall": 20, "store-failed-or-unreported": 5, "explorer=shared-value-many-urls": 1, "explorer=cancelled-store-then-store": 6, "explorer=huge-entry": 1},
   timeout={"quick": 1200, "thorough": 7200})
 
 P("C15",
@@ -168,7 +168,7 @@ P("C16",
   technique="PBT over a path-traversal name grammar with planted sentinel executables and decoy directories inside a sacrificial tree; no-execution / no-change tree-diff oracle; end-to-end through verifier.Verify with the real CLIManager",
   level_text="Exploration: for every generated name and operation the whole sacrificial base is snapshotted before/after; a marker written by a sentinel or any tree change for a non-single-component name is a violation; positive control proves executions are observable.",
   level_note="Containment: '..' depth is bounded below the root depth and every case whose join would leave the sacrificial base is skipped and counted.",
-  health={"name=traversal": 50, "name=plain": 20, "op=get": 20, "op=uninstall": 20, "op=install-file": 10, "op=install-dir": 10, "op=verify-e2e": 10, "op=list": 10, "namekind=long-then-traversal": 100, "plugin-directory-is-symlink": 50},
+  health={"name=traversal": 50, "name=plain": 20, "op=get": 20, "op=uninstall": 20, "op=install-file": 10, "op=install-dir": 10, "op=verify-e2e": 10, "op=list": 10, "namekind=long-then-traversal": 100, "plugin-directory-is-symlink": 50, "symlink-target-without-executable": 20, "no-other-plugin-in-root": 50},
   shards={"quick": 8, "thorough": 16})
 
 P("C17",
@@ -181,7 +181,7 @@ P("C17",
           "stdout=valid": 20, "stdout=nonjson": 5, "stdout=empty": 5, "stdout=fieldtype": 5, "stdout=wrongname": 2, "stdout=badversion": 2,
           "stdout=missing-name": 2, "stdout=empty-url": 2, "stdout=missing-supportedContractVersions": 2, "stdout=empty-capabilities": 2,
           "stderr=structured": 20, "stderr=nonjson": 10, "stderr=empty": 10, "errcode=THROTTLED": 2,
-          "stdout=overcap": 1, "stderr=overcap": 1, "timing=descendant": 1, "timing=slow": 1, "timing=cancel": 1, "timing=nodeadline": 1, "interleaved-calls": 10, "concurrent-calls": 1, "failing-fast-judged-in-full": 6},
+          "stdout=overcap": 1, "stderr=overcap": 1, "timing=descendant": 1, "timing=slow": 1, "timing=cancel": 1, "timing=nodeadline": 1, "interleaved-calls": 10, "concurrent-calls": 1, "failing-fast-judged-in-full": 6, "descendant-left-the-process-group": 2},
   timeout={"quick": 900, "thorough": 5400})
 
 P("C18",
@@ -223,7 +223,7 @@ P("C20",
           "op=uninstall": 20, "uninstall=installed": 10, "op=get": 20, "op=list": 20,
           "version-relation=lt": 10, "version-relation=eq": 10, "version-relation=gt": 10, "version-relation=invalid": 10,
           "shape:subdirs": 10, "shape:extra-files": 10, "semver-pair-valid": 5000, "semver-pair-with-invalid": 2000,
-          "semver-equal-but-different-text": 200, "semver-with-prerelease": 2000, "source-path-spelling=double-slash": 20, "meta=trailing": 20},
+          "semver-equal-but-different-text": 200, "semver-with-prerelease": 2000, "source-path-spelling=double-slash": 20, "meta=trailing": 20, "meta=misnamed-case": 20},
   fuzz=[{"name": "FuzzC20_Semver", "seconds": 120}],
   timeout={"quick": 900, "thorough": 5400})
 
